@@ -89,6 +89,7 @@ struct Postponed {
 struct Model {
     TrustLevel level[3][2];
     QList<Postponed> postponed;
+    QSet<QByteArray> redistrusted;   // don't-care: see distrust()
     Model()
     {
         for (auto &a : level) {
@@ -136,6 +137,10 @@ struct Model {
     void distrust(int owner, int key)
     {
         if (level[owner][key] == TrustLevel::ManuallyDistrusted) {
+            // distrusting a key that is distrusted already: the statement does not say whether decisions it has sent since are
+            // discarded now or stay held back (they can only fire if the key is authenticated later); the implementation's choice
+            // is adopted in compare()
+            redistrusted.insert(keyOf(owner, key));
             return;
         }
         level[owner][key] = TrustLevel::ManuallyDistrusted;
@@ -332,6 +337,15 @@ struct Exec {
             }
         }
         impl.sort();
+        for (int i = m.postponed.size() - 1; i >= 0; --i) {
+            const auto &p = m.postponed[i];
+            if (m.redistrusted.contains(p.senderKey) &&
+                !impl.contains(QStringLiteral("%1>%2.%3=%4").arg(QString::fromLatin1(p.senderKey.toHex().right(6))).arg(p.owner).arg(p.key).arg(p.trust))) {
+                m.postponed.removeAt(i);
+                witness("redistrust_dont_care_resolved");
+            }
+        }
+        m.redistrusted.clear();
         if (impl != m.postponedCanon()) {
             violate(QStringLiteral("postponed-decisions-differ"), QStringLiteral("%1: stored postponed decisions [%2], reference model [%3]").arg(ctx, impl.join(QLatin1Char(' ')), m.postponedCanon().join(QLatin1Char(' '))));
         }
